@@ -193,12 +193,16 @@ def render_section(section):
     if section is None:
         return "core { };\n"        # a valid file without any logs block
     L = ["logs {"]
-    for key, dests in section:
+    for i, (key, dests) in enumerate(section):
+        if i and i == len(section) // 2 and len(section) % 3 == 2:
+            L += ["};", "core { };", "logs {"]        # the section may be written in several blocks: they add up
         if isinstance(dests, str):
             L.append("  %s %s;" % (dm.quote(key), dm.quote(dests)))
         else:
             L.append("  %s ( %s );" % (dm.quote(key), ", ".join(dm.quote(d) for d in dests)))
     L.append("};")
+    if len(section) % 4 == 3:
+        L.append("logs { };")                          # ... an empty block adds nothing and takes nothing away
     return "\n".join(L) + "\n"
 
 
@@ -209,7 +213,10 @@ def token(case, k, fac, s):
     pads = case.get("pads") or [0]
     n = pads[(k * 7 + s + len(fac)) % len(pads)]
     n = max(0, min(n, 986 - len(fac)))       # the whole message stays below the logger's documented 1000 bytes
-    return "T%d-%s-%d-%s-end" % (k, fac, s, "x" * n)
+    pad = "x" * n
+    if (k + s) % 3 == 1 and n >= 12:
+        pad = "x%sx%nx97%x" + "x" * (n - 11)       # message text is data: a per cent sign means nothing to the logger
+    return "T%d-%s-%d-%s-end" % (k, fac, s, pad)
 
 
 def make_context(pid, tier, widx, opts):
@@ -277,7 +284,7 @@ def evaluate(case, ctx):
                         res.violations.append(V("incomplete_line", "line in %s is not a complete '[time] (facility:severity) message' line: %r" % (f, ln[:160])))
                     continue
                 msg = m.group(3)
-                tm = re.match(r"^T(\d+)-([a-z0-9_]+)-(\d)-x*-end$", msg)
+                tm = re.match(r"^T(\d+)-([a-z0-9_]+)-(\d)-[x%sn97]*-end$", msg)
                 if not tm:
                     continue
                 seen.setdefault(msg, {}).setdefault("file:" + f, []).append((m.group(1), m.group(2)))
